@@ -26,6 +26,7 @@ META["explanation"] += ' R03.2 treats Arc::try_unwrap as racy (two concurrent la
 META["explanation"] += ' The eyeball poll typestate incl. re-arm pairing (R02.7) is evaluated here: polling again after the end answers None again.'
 META["explanation"] += ' R03.8 the close function stores the closed sentinel on every path to its return. Shared: R01.5 (the sentinel is written by close only; every initialiser of the metadata - also a derived Default - starts at a version that is not the sentinel) and R19.8 (no leaked share of the owner counter, else nobody is ever last).'
 META["explanation"] += ' R03.5 / R19.1 treat fallback combinators (unwrap_or_default, unwrap_or_else, or_else, map_or ..) on a failed upgrade as a fresh counter. R01.4e every Ready(Some) of a subscriber poll path (both flavours) is dominated by the poll leaf. R03.9 asserting non-blocking acquisitions (try_read / try_write / try_lock + unwrap, and the Lock helpers built from them) are called from Drop impls only.'
+META["explanation"] += ' Shared with C19: R19.1 (every handle of one observable shares one owner counter).'
 
 
 def run(ctx):
